@@ -160,6 +160,8 @@ pub fn guarded(f: impl FnOnce() -> CaseResult) -> CaseResult {
 pub struct Stats {
 	pub evals: u64,
 	pub nontrivial: HashSet<u64>,
+	/// cases that are non-trivial and distinct BY CONSTRUCTION (exhaustive enumerations), counted not hashed
+	pub nontrivial_bulk: u64,
 	pub classes: BTreeMap<String, u64>,
 	pub counters: BTreeMap<String, u64>,
 	pub samples: Vec<Value>,
@@ -186,6 +188,14 @@ impl Stats {
 			self.nontrivial.insert(fingerprint);
 		}
 	}
+	pub fn nontrivial_bulk(&mut self, n: u64) {
+		if !self.frozen {
+			self.nontrivial_bulk += n;
+		}
+	}
+	pub fn nontrivial_len(&self) -> u64 {
+		self.nontrivial.len() as u64 + self.nontrivial_bulk
+	}
 	pub fn ratio(&mut self, r: f64) {
 		if !self.frozen && r.is_finite() && r > self.max_ratio {
 			self.max_ratio = r;
@@ -203,6 +213,7 @@ impl Stats {
 	}
 	fn merge(&mut self, o: Stats, prefix: &str) {
 		self.evals += o.evals;
+		self.nontrivial_bulk += o.nontrivial_bulk;
 		for h in o.nontrivial {
 			self.nontrivial.insert(h ^ fnv(prefix.as_bytes()));
 		}
@@ -643,7 +654,7 @@ pub fn run_property(def: PropertyDef, tier: Tier, seed: u64, only: Option<&str>)
 	for (i, st, v, secs) in results {
 		let name = def.checks[i].name();
 		per_check.push(json!({
-			"check": name, "evaluations": st.evals, "distinct_nontrivial": st.nontrivial.len(),
+			"check": name, "evaluations": st.evals, "distinct_nontrivial": st.nontrivial_len(),
 			"excluded_known": st.excluded_known, "max_allowance_ratio": st.max_ratio, "wall_s": (secs*1000.0).round()/1000.0,
 		}));
 		if let Some(v) = v {
@@ -660,7 +671,7 @@ pub fn run_property(def: PropertyDef, tier: Tier, seed: u64, only: Option<&str>)
 	let wall = t0.elapsed().as_secs_f64();
 	let mut coverage = json!({
 		"evaluations": total.evals,
-		"distinct_nontrivial": total.nontrivial.len(),
+		"distinct_nontrivial": total.nontrivial_len(),
 		"rule": def.rule,
 		"samples": total.samples,
 		"classes": total.classes,
@@ -696,7 +707,7 @@ pub fn run_property(def: PropertyDef, tier: Tier, seed: u64, only: Option<&str>)
 		tier.name(),
 		seed,
 		total.evals,
-		total.nontrivial.len(),
+		total.nontrivial_len(),
 		total.excluded_known,
 		total.max_ratio,
 		violations,
